@@ -276,6 +276,8 @@ def role_claims(rng: Random, lines: list[tuple[str, str]], meta: dict[str, Any])
     if not ctls or not devs:
         return lines
     ctl = rng.choice(ctls)
+    # (another controller heard in the history - a neighbour's, after a splice - may be named too)
+    devs += [c for c in ctls if c != ctl][:1]
     out = list(lines)
     at = len(out) // 3
     n = 0
